@@ -61,7 +61,12 @@ def handlers(batch, wdup, wforeign):
         e = wdup.errors()
         if any("duplicate key" in l for l in e):
             return "buggy"
-        return "correct" if not e else "other: " + "; ".join(e)[:400]
+        if e:
+            return "other: " + "; ".join(e)[:400]
+        o = batch.obs.get(("walias", "Color"), {})
+        if o.get("values") == ["1", "2"] and o.get("strings") == ["Red", "Blue"] and len(o.get("vmap", [])) == 4:
+            return "correct"
+        return "other: the alias witness gives Values %s Strings %s ValueMap %s" % (o.get("values"), o.get("strings"), o.get("vmap"))
 
     def implicit(entry):
         o = batch.obs.get(("wimpl", "Perm"), {})
@@ -98,7 +103,7 @@ def main(run):
         batch = er.Batch(run, "c04mod%d" % bi)
         specs = []
         if bi == 0:
-            specs += [er.witness_neg(), er.witness_big()]
+            specs += [er.witness_neg(), er.witness_big(), er.witness_alias()]
         specs += [eg.gen_enum_pkg(run.rng, "p%04d" % (done + i), profile="c04") for i in range(n)]
         by_name = {}
         for spec in specs:
